@@ -286,6 +286,23 @@ func (ms *MessageStreamer) Go(ctx context.Context, conn StreamConnection) error 
 						}
 					}
 				}
+			} else {
+				// The fetch came back empty: every candidate was skipped because it does
+				// not fit the remaining byte budget (or was dead-lettered), or the fetch
+				// timed out. Nothing changes until capacity is freed, the client changes
+				// its limits or something is published, so wait for one of those (or a
+				// short while, for leases that lapse) instead of re-running the fetch in
+				// a tight loop, which starves every other writer -- including the very
+				// acks that would free the capacity.
+				select {
+				case <-ctx.Done():
+					return nil
+				case <-wakeSend:
+				case <-pubNotify:
+					// notifiers are single-use, so get a new one before we proceed
+					pubNotify = PublishAwaiter(*ms.SubscriptionID)
+				case <-time.After(time.Second):
+				}
 			}
 		}
 	})
